@@ -119,8 +119,8 @@ fn isr_pow(x: &[u8; 16], k: usize) -> [u8; 16] {
 }
 /// every block of `got` equals f applied to the corresponding block of `src`
 fn blockwise<F: Fn(&[u8; 16]) -> [u8; 16]>(got: &[W], src: &[W], f: F) -> bool {
-    let g = m_unslice(got);
-    let s = m_unslice(src);
+    let g = unslice_real(got);
+    let s = unslice_real(src);
     let mut ok = true;
     let mut b = 0;
     while b < NB {
@@ -144,7 +144,7 @@ pub fn phase(r: usize, nr: usize) -> usize {
     }
 }
 /// SPECIFICATION of the fixsliced round-key format, as a function of the FIPS-197 round keys rk[0..=nr]:
-/// words 8r..8r+8 = bitslice(k', k', .., k') with k' = InvShiftRows^phase(r)(rk[r]) XOR (0x63 in every byte if r >= 1)
+/// words 8r..8r+8 = bitslice(k', k', .., k') (the crate's bitslice, == the model placement m_slice by fx_bitslice) with k' = InvShiftRows^phase(r)(rk[r]) XOR (0x63 in every byte if r >= 1)
 /// (0x63 = the four NOTs that sub_bytes() omits, "sub_bytes_nots").
 pub fn m_keys<const N: usize>(rk: &[[u8; 16]; 15], nr: usize) -> [W; N] {
     let mut out = [0 as W; N];
@@ -158,7 +158,8 @@ pub fn m_keys<const N: usize>(rk: &[[u8; 16]; 15], nr: usize) -> [W; N] {
                 i += 1;
             }
         }
-        let s = m_slice(&[k; NB]);
+        let mut s = [0 as W; 8];
+        real_bitslice(&mut s, &[k; NB]);
         let mut p = 0;
         while p < 8 {
             out[8 * r + p] = s[p];
@@ -180,12 +181,128 @@ pub fn take_rk(inp: &[u8], off: usize, nr: usize) -> [[u8; 16]; 15] {
 }
 
 // ---------------------------------------------------------------------------------------------- uninterpreted S-boxes
-// capacity 512 byte-calls each (implementation side + oracle side of one query)
-uf1!(uf_sb, u8, u8, [B0 B1 B2 B3 B4 B5 B6 B7], ra::sbox);
-uf1!(uf_isb, u8, u8, [B0 B1 B2 B3 B4 B5 B6 B7], ra::inv_sbox);
+// A FAMILY of uninterpreted byte functions f_0 .. f_15 ("slots") stands for the S-box, and another one for the inverse
+// S-box: slot = index of the S-box layer inside the query (round number, key-schedule step, or block number for the 8-block
+// hazmat forms).  Implementation and oracle use the same f_slot in the same layer.  Allowing a different function per layer
+// is a WEAKER hypothesis than one shared function (every tuple with f_0 = .. = f_15 = S-box is an instance), so a result
+// proved for the family holds for the real S-box; it keeps every Ackermann table at <= 64 entries and the number of
+// compared call pairs linear in the number of layers.  Layers are counted by static call counters (concrete during
+// symbolic execution); natively every slot is the concrete S-box.
+uf1!(uf_s0, u8, u8, [B0], ra::sbox);
+uf1!(uf_s1, u8, u8, [B0], ra::sbox);
+uf1!(uf_s2, u8, u8, [B0], ra::sbox);
+uf1!(uf_s3, u8, u8, [B0], ra::sbox);
+uf1!(uf_s4, u8, u8, [B0], ra::sbox);
+uf1!(uf_s5, u8, u8, [B0], ra::sbox);
+uf1!(uf_s6, u8, u8, [B0], ra::sbox);
+uf1!(uf_s7, u8, u8, [B0], ra::sbox);
+uf1!(uf_s8, u8, u8, [B0], ra::sbox);
+uf1!(uf_s9, u8, u8, [B0], ra::sbox);
+uf1!(uf_s10, u8, u8, [B0], ra::sbox);
+uf1!(uf_s11, u8, u8, [B0], ra::sbox);
+uf1!(uf_s12, u8, u8, [B0], ra::sbox);
+uf1!(uf_s13, u8, u8, [B0], ra::sbox);
+uf1!(uf_s14, u8, u8, [B0], ra::sbox);
+uf1!(uf_s15, u8, u8, [B0], ra::sbox);
+uf1!(uf_i0, u8, u8, [B0], ra::inv_sbox);
+uf1!(uf_i1, u8, u8, [B0], ra::inv_sbox);
+uf1!(uf_i2, u8, u8, [B0], ra::inv_sbox);
+uf1!(uf_i3, u8, u8, [B0], ra::inv_sbox);
+uf1!(uf_i4, u8, u8, [B0], ra::inv_sbox);
+uf1!(uf_i5, u8, u8, [B0], ra::inv_sbox);
+uf1!(uf_i6, u8, u8, [B0], ra::inv_sbox);
+uf1!(uf_i7, u8, u8, [B0], ra::inv_sbox);
+uf1!(uf_i8, u8, u8, [B0], ra::inv_sbox);
+uf1!(uf_i9, u8, u8, [B0], ra::inv_sbox);
+uf1!(uf_i10, u8, u8, [B0], ra::inv_sbox);
+uf1!(uf_i11, u8, u8, [B0], ra::inv_sbox);
+uf1!(uf_i12, u8, u8, [B0], ra::inv_sbox);
+uf1!(uf_i13, u8, u8, [B0], ra::inv_sbox);
+uf1!(uf_i14, u8, u8, [B0], ra::inv_sbox);
+uf1!(uf_i15, u8, u8, [B0], ra::inv_sbox);
+pub fn uf_sb_slot(slot: usize, x: u8) -> u8 {
+    match slot {
+        0 => uf_s0::call(x),
+        1 => uf_s1::call(x),
+        2 => uf_s2::call(x),
+        3 => uf_s3::call(x),
+        4 => uf_s4::call(x),
+        5 => uf_s5::call(x),
+        6 => uf_s6::call(x),
+        7 => uf_s7::call(x),
+        8 => uf_s8::call(x),
+        9 => uf_s9::call(x),
+        10 => uf_s10::call(x),
+        11 => uf_s11::call(x),
+        12 => uf_s12::call(x),
+        13 => uf_s13::call(x),
+        14 => uf_s14::call(x),
+        15 => uf_s15::call(x),
+        _ => unreachable!(),
+    }
+}
+pub fn uf_isb_slot(slot: usize, x: u8) -> u8 {
+    match slot {
+        0 => uf_i0::call(x),
+        1 => uf_i1::call(x),
+        2 => uf_i2::call(x),
+        3 => uf_i3::call(x),
+        4 => uf_i4::call(x),
+        5 => uf_i5::call(x),
+        6 => uf_i6::call(x),
+        7 => uf_i7::call(x),
+        8 => uf_i8::call(x),
+        9 => uf_i9::call(x),
+        10 => uf_i10::call(x),
+        11 => uf_i11::call(x),
+        12 => uf_i12::call(x),
+        13 => uf_i13::call(x),
+        14 => uf_i14::call(x),
+        15 => uf_i15::call(x),
+        _ => unreachable!(),
+    }
+}
+#[cfg(kani)]
+pub static mut IMPL_LAYERS: usize = 0; // S-box layers executed by the implementation side so far (stub calls)
+#[cfg(kani)]
+pub static mut ORACLE_BYTES: usize = 0; // oracle-side S-box byte calls so far (16 per layer, 4 per SubWord)
+fn impl_layer(_n: usize) -> usize {
+    #[cfg(kani)]
+    unsafe {
+        let l = IMPL_LAYERS;
+        IMPL_LAYERS = l + _n;
+        return l;
+    }
+    #[cfg(not(kani))]
+    0
+}
+fn oracle_byte() -> usize {
+    #[cfg(kani)]
+    unsafe {
+        let n = ORACLE_BYTES;
+        ORACLE_BYTES = n + 1;
+        return n;
+    }
+    #[cfg(not(kani))]
+    0
+}
+/// oracle-side S-box of a cipher / round query: 16 byte calls per layer
+pub fn o_sb(x: u8) -> u8 {
+    uf_sb_slot(oracle_byte() / 16, x)
+}
+pub fn o_isb(x: u8) -> u8 {
+    uf_isb_slot(oracle_byte() / 16, x)
+}
+/// oracle-side SubWord of a key-expansion query: one layer per SubWord (4 byte calls)
 pub fn o_subword(w: u32) -> u32 {
     let b = w.to_be_bytes();
-    u32::from_be_bytes([uf_sb::call(b[0]), uf_sb::call(b[1]), uf_sb::call(b[2]), uf_sb::call(b[3])])
+    let mut o = [0u8; 4];
+    let mut i = 0;
+    while i < 4 {
+        o[i] = uf_sb_slot(oracle_byte() / 4, b[i]);
+        i += 1;
+    }
+    u32::from_be_bytes(o)
 }
 
 fn copy8(dst: &mut [W], src: &[W; 8]) {
@@ -195,22 +312,42 @@ fn copy8(dst: &mut [W], src: &[W; 8]) {
         p += 1;
     }
 }
-/// bitslice o (bytewise f on every lane) o inv_bitslice -- the shape of every S-box stub; with f = S ^ 0x63 this is
-/// what the leaf lemma fx_sub_bytes proves sub_bytes() to be, with f = S^-1(. ^ 0x63) what fx_inv_sub_bytes proves.
-pub fn sbox_layer_with<F: Fn(u8) -> u8>(state: &mut [W], f: F) {
+// Stub shapes.  They are written with the crate's OWN inv_bitslice / bitslice (few word operations) rather than with the
+// bit-by-bit model m_unslice / m_slice (thousands of program steps per call); fx_bitslice / fx_inv_bitslice prove the two
+// pairs equal and mutually inverse, so "bitslice o F o inv_bitslice" below is "m_slice o F o m_unslice".
+fn unslice_real(state: &[W]) -> [[u8; 16]; NB] {
+    let bb = inv_bitslice(state);
+    let mut x = [[0u8; 16]; NB];
+    let mut l = 0;
+    while l < NB {
+        x[l] = bb.0[l].0;
+        l += 1;
+    }
+    x
+}
+fn slice_real_into(state: &mut [W], y: &[[u8; 16]; NB]) {
     let mut out = [0 as W; 8];
+    real_bitslice(&mut out, y);
+    copy8(state, &out);
+}
+/// bitslice o (f(lane, byte) on every byte of every lane) o inv_bitslice -- the shape of every S-box stub; with
+/// f = S ^ 0x63 this is what the leaf lemma fx_sub_bytes proves sub_bytes() to be, with f = S^-1(. ^ 0x63) what
+/// fx_inv_sub_bytes proves inv_sub_bytes() to be.
+pub fn sbox_layer_with<F: Fn(usize, u8) -> u8>(state: &mut [W], f: F) {
+    let x = unslice_real(state);
+    let mut y = [[0u8; 16]; NB];
     let mut l = 0;
     while l < NB {
         let mut i = 0;
         while i < 16 {
-            m_put(&mut out, l, i, f(m_get(state, l, i)));
+            y[l][i] = f(l, x[l][i]);
             i += 1;
         }
         l += 1;
     }
-    copy8(state, &out);
+    slice_real_into(state, &y);
 }
-/// Block lane whose bytes the `*_lane` stubs compute; every other lane is havocked (fresh unconstrained bits at each
+/// Block lane whose bytes the `*_lane` stubs compute; every other lane is havocked (fresh unconstrained bytes at each
 /// call), which is a superset of the real function's behaviour: a result proved under it does not depend on those lanes.
 #[cfg(kani)]
 pub static mut LANE: usize = 0;
@@ -220,74 +357,84 @@ pub fn set_lane(_l: usize) {
         LANE = _l;
     }
 }
+/// block-wise layer restricted to one lane: lane LANE = f(block of lane LANE), other lanes havoc
+#[cfg(kani)]
+fn lin_lane_with<F: Fn(&[u8; 16]) -> [u8; 16]>(state: &mut [W], f: F) {
+    let lane = unsafe { LANE };
+    let x = unslice_real(state);
+    let mut y: [[u8; 16]; NB] = kani::any();
+    let mut xb = [0u8; 16];
+    let mut l = 0;
+    while l < NB {
+        if l == lane {
+            xb = x[l];
+        }
+        l += 1;
+    }
+    let yb = f(&xb);
+    l = 0;
+    while l < NB {
+        if l == lane {
+            y[l] = yb;
+        }
+        l += 1;
+    }
+    slice_real_into(state, &y);
+}
 #[cfg(kani)]
 fn one_lane_with<F: Fn(u8) -> u8>(state: &mut [W], f: F) {
-    let lane = unsafe { LANE };
-    let mut out: [W; 8] = kani::any();
-    let mut i = 0;
-    while i < 16 {
-        let mut x = 0u8;
-        let mut l = 0;
-        while l < NB {
-            if l == lane {
-                x = m_get(state, l, i);
-            }
-            l += 1;
+    lin_lane_with(state, |xb| {
+        let mut yb = [0u8; 16];
+        let mut i = 0;
+        while i < 16 {
+            yb[i] = f(xb[i]);
+            i += 1;
         }
-        let y = f(x);
-        l = 0;
-        while l < NB {
-            if l == lane {
-                m_put(&mut out, l, i, y);
-            }
-            l += 1;
-        }
-        i += 1;
-    }
-    copy8(state, &out);
+        yb
+    })
 }
-/// stub for sub_bytes: lane LANE = uf_sb ^ 0x63 (16 calls), other lanes havoc
+/// stub for sub_bytes: lane LANE = f_layer ^ 0x63 (16 calls), other lanes havoc
 #[cfg(kani)]
 pub fn stub_sb_lane(state: &mut [W]) {
-    one_lane_with(state, |x| uf_sb::call(x) ^ 0x63)
+    let slot = impl_layer(1);
+    one_lane_with(state, |x| uf_sb_slot(slot, x) ^ 0x63)
 }
-/// stub for inv_sub_bytes: lane LANE = uf_isb(. ^ 0x63) (16 calls), other lanes havoc
+/// stub for inv_sub_bytes: lane LANE = g_layer(. ^ 0x63) (16 calls), other lanes havoc
 #[cfg(kani)]
 pub fn stub_isb_lane(state: &mut [W]) {
-    one_lane_with(state, |x| uf_isb::call(x ^ 0x63))
+    let slot = impl_layer(1);
+    one_lane_with(state, |x| uf_isb_slot(slot, x ^ 0x63))
 }
-/// stub for sub_bytes, all lanes (16 * NB calls)
+/// stub for sub_bytes, all lanes (16 * NB calls; one layer per lane = per block of the batch)
 pub fn stub_sb_all(state: &mut [W]) {
-    sbox_layer_with(state, |x| uf_sb::call(x) ^ 0x63)
+    let slot = impl_layer(NB);
+    sbox_layer_with(state, |l, x| uf_sb_slot(slot + l, x) ^ 0x63)
 }
 /// stub for inv_sub_bytes, all lanes
 pub fn stub_isb_all(state: &mut [W]) {
-    sbox_layer_with(state, |x| uf_isb::call(x ^ 0x63))
+    let slot = impl_layer(NB);
+    sbox_layer_with(state, |l, x| uf_isb_slot(slot + l, x ^ 0x63))
 }
 /// stub for sub_bytes in key schedules, where all NB lanes hold the same block: 16 calls on lane 0, result replicated.
 /// That the argument is replicated is a proof obligation of the query (not an assumption).
 #[cfg(kani)]
 pub fn stub_sb_rep(state: &mut [W]) {
+    let slot = impl_layer(1);
+    let x = unslice_real(state);
     let mut rep = true;
-    let mut out = [0 as W; 8];
-    let mut i = 0;
-    while i < 16 {
-        let x = m_get(state, 0, i);
-        let mut l = 1;
-        while l < NB {
-            rep &= m_get(state, l, i) == x;
-            l += 1;
-        }
-        let y = uf_sb::call(x) ^ 0x63;
-        l = 0;
-        while l < NB {
-            m_put(&mut out, l, i, y);
-            l += 1;
-        }
-        i += 1;
+    let mut l = 1;
+    while l < NB {
+        rep &= x[l] == x[0];
+        l += 1;
     }
     kani::assert(rep, "VERIF_STUB_PRECONDITION sub_bytes argument replicated over the lanes");
-    copy8(state, &out);
+    let mut y0 = [0u8; 16];
+    let mut i = 0;
+    while i < 16 {
+        y0[i] = uf_sb_slot(slot, x[0][i]) ^ 0x63;
+        i += 1;
+    }
+    slice_real_into(state, &[y0; NB]);
 }
 
 // ---------------------------------------------------------------------------------------------- access to private state
@@ -365,17 +512,17 @@ verif_harness! {
         let mut t = s;
         sub_bytes(&mut t);
         let mut m = s;
-        sbox_layer_with(&mut m, |x| ra::sbox(x) ^ 0x63);
+        sbox_layer_with(&mut m, |_, x| ra::sbox(x) ^ 0x63);
         vcheck!(eq_words(&t, &m));
         // NOT convention: sub_bytes_nots XORs 0x63 into every byte, so nots(sub_bytes(.)) is the FIPS-197 SubBytes
         sub_bytes_nots(&mut t);
         let mut n = s;
-        sbox_layer_with(&mut n, ra::sbox);
+        sbox_layer_with(&mut n, |_, x| ra::sbox(x));
         vcheck!(eq_words(&t, &n));
         let mut u = s;
         sub_bytes_nots(&mut u);
         let mut v = s;
-        sbox_layer_with(&mut v, |x| x ^ 0x63);
+        sbox_layer_with(&mut v, |_, x| x ^ 0x63);
         Some(eq_words(&u, &v))
     }
 }
@@ -388,7 +535,7 @@ verif_harness! {
         let mut t = s;
         inv_sub_bytes(&mut t);
         let mut m = s;
-        sbox_layer_with(&mut m, |x| ra::inv_sbox(x ^ 0x63));
+        sbox_layer_with(&mut m, |_, x| ra::inv_sbox(x ^ 0x63));
         Some(eq_words(&t, &m))
     }
 }
@@ -426,9 +573,9 @@ verif_harness! {
         // add_round_key is the lane-wise XOR
         t = s;
         add_round_key(&mut t, &k);
-        let a = m_unslice(&t);
-        let x = m_unslice(&s);
-        let y = m_unslice(&k);
+        let a = unslice_real(&t);
+        let x = unslice_real(&s);
+        let y = unslice_real(&k);
         let mut b = 0;
         while b < NB {
             vcheck!(a[b] == ra::xor(&x[b], &y[b]));
@@ -437,27 +584,142 @@ verif_harness! {
         Some(true)
     }
 }
+
+// ---------------------------------------------------------------------------------------------- MixColumns layers
+// define_mix_columns! is the Kaesper-Schwabe formulation; for fixslice phase k the "rotate rows by j" of the plain form
+// becomes "rotate rows by j and columns by k*j":  (SR^-k o MC o SR^k)(a)[r][c] = SUM_j m_j * a[r+j][c+k*j].
+// mc_ks / imc_ks transcribe the macro at the byte level (same XOR structure as the bit-plane code, so that the leaf lemmas
+// L1 "real == bitslice o mc_ks o inv_bitslice" are structurally aligned); L2 ties them to the FIPS-197 matrices.
+fn xt(v: u8) -> u8 {
+    (v << 1) ^ (if v & 0x80 != 0 { 0x1b } else { 0 })
+}
+fn at(x: &[u8; 16], r: usize, c: usize) -> u8 {
+    x[(r % 4) + 4 * (c % 4)]
+}
+pub fn mc_ks(a: &[u8; 16], k: usize) -> [u8; 16] {
+    let mut b = [0u8; 16];
+    let mut cc = [0u8; 16];
+    let mut i = 0;
+    while i < 16 {
+        b[i] = at(a, i % 4 + 1, i / 4 + k); // first_rotate: rows by 1, columns by k
+        cc[i] = a[i] ^ b[i];
+        i += 1;
+    }
+    let mut o = [0u8; 16];
+    i = 0;
+    while i < 16 {
+        o[i] = b[i] ^ xt(cc[i]) ^ at(&cc, i % 4 + 2, i / 4 + 2 * k); // second_rotate: rows by 2, columns by 2k
+        i += 1;
+    }
+    o
+}
+pub fn imc_ks(a: &[u8; 16], k: usize) -> [u8; 16] {
+    let mut cc = [0u8; 16];
+    let mut d = [0u8; 16];
+    let mut e = [0u8; 16];
+    let mut i = 0;
+    while i < 16 {
+        cc[i] = a[i] ^ at(a, i % 4 + 1, i / 4 + k);
+        d[i] = a[i] ^ xt(cc[i]);
+        e[i] = cc[i] ^ xt(xt(d[i]));
+        i += 1;
+    }
+    let mut o = [0u8; 16];
+    i = 0;
+    while i < 16 {
+        o[i] = d[i] ^ e[i] ^ at(&e, i % 4 + 2, i / 4 + 2 * k);
+        i += 1;
+    }
+    o
+}
+/// SPECIFICATION of mix_columns_k / inv_mix_columns_k: the FIPS-197 layer conjugated by k ShiftRows
+pub fn mc_spec(x: &[u8; 16], k: usize) -> [u8; 16] {
+    isr_pow(&ra::mix_columns(&sr_pow(x, k)), k)
+}
+pub fn imc_spec(x: &[u8; 16], k: usize) -> [u8; 16] {
+    isr_pow(&ra::inv_mix_columns(&sr_pow(x, k)), k)
+}
+/// block-wise layer on all lanes: bitslice o (f on every block) o inv_bitslice
+pub fn lin_all_with<F: Fn(&[u8; 16]) -> [u8; 16]>(state: &mut [W], f: F) {
+    let x = unslice_real(state);
+    let mut y = [[0u8; 16]; NB];
+    let mut l = 0;
+    while l < NB {
+        y[l] = f(&x[l]);
+        l += 1;
+    }
+    slice_real_into(state, &y);
+}
+// stubs for mix_columns_k / inv_mix_columns_k: exactly the right-hand sides of the leaf lemmas fx_mix_columns /
+// fx_inv_mix_columns (L1); the oracle side of the wiring queries uses mc_ks(., 0) / imc_ks(., 0) as MixColumns /
+// InvMixColumns, which fx_mc_model / fx_imc_model (L2) prove to be the FIPS-197 matrices.
+pub fn stub_mc0_all(s: &mut State) {
+    lin_all_with(&mut s[..], |x| mc_ks(x, 0))
+}
+pub fn stub_imc0_all(s: &mut State) {
+    lin_all_with(&mut s[..], |x| imc_ks(x, 0))
+}
+#[cfg(kani)]
+pub fn stub_mc0(s: &mut State) {
+    lin_lane_with(&mut s[..], |x| mc_ks(x, 0))
+}
+#[cfg(kani)]
+pub fn stub_mc1(s: &mut State) {
+    lin_lane_with(&mut s[..], |x| mc_ks(x, 1))
+}
+#[cfg(kani)]
+pub fn stub_mc2(s: &mut State) {
+    lin_lane_with(&mut s[..], |x| mc_ks(x, 2))
+}
+#[cfg(kani)]
+pub fn stub_mc3(s: &mut State) {
+    lin_lane_with(&mut s[..], |x| mc_ks(x, 3))
+}
+#[cfg(kani)]
+pub fn stub_imc0(s: &mut State) {
+    lin_lane_with(&mut s[..], |x| imc_ks(x, 0))
+}
+#[cfg(kani)]
+pub fn stub_imc1(s: &mut State) {
+    lin_lane_with(&mut s[..], |x| imc_ks(x, 1))
+}
+#[cfg(kani)]
+pub fn stub_imc2(s: &mut State) {
+    lin_lane_with(&mut s[..], |x| imc_ks(x, 2))
+}
+#[cfg(kani)]
+pub fn stub_imc3(s: &mut State) {
+    lin_lane_with(&mut s[..], |x| imc_ks(x, 3))
+}
+/// MixColumns / InvMixColumns handed to the oracle in the wiring queries (== FIPS-197 by fx_mc_model / fx_imc_model)
+pub fn o_mc(x: &[u8; 16]) -> [u8; 16] {
+    mc_ks(x, 0)
+}
+pub fn o_imc(x: &[u8; 16]) -> [u8; 16] {
+    imc_ks(x, 0)
+}
+
 verif_harness! {
     name: fx_mix_columns,
     bytes: 8 * WB,
     unwind: 70,
     prop: |inp| {
-        // mix_columns_k == ShiftRows^-k o MixColumns o ShiftRows^k on every block (k = fixslice phase)
+        // L1: mix_columns_k == bitslice o (block-wise mc_ks(., k)) o inv_bitslice, every lane, every compiled phase
         let s = state_of(inp, 0);
         let mut t = s;
         mix_columns_0(&mut t);
-        vcheck!(blockwise(&t, &s, |x| ra::mix_columns(x)));
+        vcheck!(blockwise(&t, &s, |x| mc_ks(x, 0)));
         t = s;
         mix_columns_1(&mut t);
-        vcheck!(blockwise(&t, &s, |x| isr_pow(&ra::mix_columns(&sr_pow(x, 1)), 1)));
+        vcheck!(blockwise(&t, &s, |x| mc_ks(x, 1)));
         #[cfg(not(aes_compact))]
         {
             t = s;
             mix_columns_2(&mut t);
-            vcheck!(blockwise(&t, &s, |x| isr_pow(&ra::mix_columns(&sr_pow(x, 2)), 2)));
+            vcheck!(blockwise(&t, &s, |x| mc_ks(x, 2)));
             t = s;
             mix_columns_3(&mut t);
-            vcheck!(blockwise(&t, &s, |x| isr_pow(&ra::mix_columns(&sr_pow(x, 3)), 3)));
+            vcheck!(blockwise(&t, &s, |x| mc_ks(x, 3)));
         }
         Some(true)
     }
@@ -470,55 +732,49 @@ verif_harness! {
         let s = state_of(inp, 0);
         let mut t = s;
         inv_mix_columns_0(&mut t);
-        vcheck!(blockwise(&t, &s, |x| ra::inv_mix_columns(x)));
+        vcheck!(blockwise(&t, &s, |x| imc_ks(x, 0)));
         t = s;
         inv_mix_columns_1(&mut t);
-        vcheck!(blockwise(&t, &s, |x| isr_pow(&ra::inv_mix_columns(&sr_pow(x, 1)), 1)));
+        vcheck!(blockwise(&t, &s, |x| imc_ks(x, 1)));
         #[cfg(not(aes_compact))]
         {
             t = s;
             inv_mix_columns_2(&mut t);
-            vcheck!(blockwise(&t, &s, |x| isr_pow(&ra::inv_mix_columns(&sr_pow(x, 2)), 2)));
+            vcheck!(blockwise(&t, &s, |x| imc_ks(x, 2)));
             t = s;
             inv_mix_columns_3(&mut t);
-            vcheck!(blockwise(&t, &s, |x| isr_pow(&ra::inv_mix_columns(&sr_pow(x, 3)), 3)));
+            vcheck!(blockwise(&t, &s, |x| imc_ks(x, 3)));
         }
         Some(true)
     }
 }
 verif_harness! {
-    name: fx_keyformat,
-    bytes: 16 * 15,
+    name: fx_mc_model,
+    bytes: 16,
     unwind: 70,
     prop: |inp| {
-        // the key-format specification m_keys is injective on rk[0..=nr] and replicated over the lanes: un-bitslicing
-        // any lane of words 8r..8r+8 and undoing phase / NOTs gives back rk[r] (nr = 14 covers 10 and 12 as prefixes
-        // except for the phase of the last key, which is 0 like that of the even rounds checked here for nr = 10, 12)
-        let rk = take_rk(inp, 0, 14);
-        let mut ok = true;
-        let mut n = 10;
-        while n <= 14 {
-            let ks: [W; 120] = m_keys::<120>(&rk, n);
-            let mut r = 0;
-            while r <= n {
-                let u = m_unslice(&ks[8 * r..8 * r + 8]);
-                let mut b = 0;
-                while b < NB {
-                    let mut k = sr_pow(&u[b], phase(r, n));
-                    if r >= 1 {
-                        let mut i = 0;
-                        while i < 16 {
-                            k[i] ^= 0x63;
-                            i += 1;
-                        }
-                    }
-                    ok &= k == rk[r];
-                    b += 1;
-                }
-                r += 1;
-            }
-            n += 2;
+        // L2 (byte level, one block): mc_ks(., k) is the k-fold ShiftRows conjugate of mc_ks(., 0), which is FIPS MixColumns
+        let x: [u8; 16] = *inp;
+        vcheck!(mc_ks(&x, 0) == ra::mix_columns(&x));
+        let mut k = 1;
+        while k < 4 {
+            vcheck!(mc_ks(&x, k) == isr_pow(&mc_ks(&sr_pow(&x, k), 0), k));
+            k += 1;
         }
-        Some(ok)
+        Some(true)
+    }
+}
+verif_harness! {
+    name: fx_imc_model,
+    bytes: 16,
+    unwind: 70,
+    prop: |inp| {
+        let x: [u8; 16] = *inp;
+        let mut k = 1;
+        while k < 4 {
+            vcheck!(imc_ks(&x, k) == isr_pow(&imc_ks(&sr_pow(&x, k), 0), k));
+            k += 1;
+        }
+        Some(imc_ks(&x, 0) == ra::inv_mix_columns(&x))
     }
 }
